@@ -233,7 +233,10 @@ def _work(job):
     keys = []
     viols = []
     for si, (g, assign) in enumerate(structs):
-        for wi, winners in enumerate(itertools.product("TD", repeat=g)):
+        # the winner only matters for groups that own a unique peptide; the others are fixed to "T"
+        owners = [j for j in range(g) if (j,) in assign]
+        for wi, choice in enumerate(itertools.product("TD", repeat=len(owners))):
+            winners = tuple(choice[owners.index(j)] if j in owners else "T" for j in range(g))
             counter = base + si * 16 + wi
             problems, rows = run_direct(g, assign, winners, counter, has_decoys, seed)
             if problems is None:
@@ -253,14 +256,14 @@ def _work(job):
 
 
 def _direct(tier, seed, has_decoys):
-    max_g, max_k = (3, 4) if tier == "quick" else (4, 5)
+    max_g, max_k = (3, 5) if tier == "quick" else (4, 5)
     structs = structures(max_g, max_k)
     name = "picked_with_decoys" if has_decoys else "picked_without_decoys"
     ck = Check(name, "mokapot.picked_protein.picked_protein, strip_peptides, %s, mokapot.utils.groupby_max"
                % ("group_with_decoys" if has_decoys else "group_without_decoys, mokapot.peptides.match_decoy"),
                "exhaustive: all %d assignments of 1..%d peptides to non-empty subsets of 1..%d protein groups (up to "
-               "renaming peptides; unique and shared peptides, groups without unique peptide) x all 2^groups "
-               "target/decoy winners; Proteins object built directly with has_decoys=%s; per case a table with the "
+               "renaming peptides; unique and shared peptides, groups without unique peptide) x all target/decoy "
+               "winners of the groups owning a unique peptide; Proteins object built directly with has_decoys=%s; per case a table with the "
                "target and the decoy form of every peptide (every other case drops rows with p=0.3, seed %d), %d "
                "modification/flank/lowercase notations cycled, every 7th table all lowercase, every 4th holds a "
                "peptide in two notations, every 3rd gives the shared peptides the highest scores; distinct scores"
@@ -268,6 +271,7 @@ def _direct(tier, seed, has_decoys):
                "result rows == one entry per pair with a retained unique peptide, equal to the best-scoring unique row "
                "(group, peptide text, plain sequence, score, target flag); non-trivial = a shared peptide is present "
                "or some group pair has >= 2 unique rows to choose from")
+    import mokapot.picked_protein                       # noqa: F401  (imported once, before the workers fork)
     n_chunks = 32
     jobs = [(structs[i::n_chunks], has_decoys, seed, i * 1000003) for i in range(n_chunks)]
     with multiprocessing.Pool(min(16, multiprocessing.cpu_count())) as pool:
@@ -420,7 +424,7 @@ def check_strip(tier, seed):
         for (text, plain), g in zip(items, got):
             ck.case((name, text), nontrivial=text != plain)
             if g != plain:
-                ck.violation("strip-" + name.rstrip("0123456789"), "%r stripped to %r, plain sequence %r"
+                ck.violation("strip-" + name, "%r stripped to %r, plain sequence %r"
                              % (text, g, plain), {"series": [t for t, _ in items], "plain": [p for _, p in items]})
     return ck
 
